@@ -36,3 +36,20 @@ Print Assumptions C01_holds.
 
 Example C01_nonvacuous : forallb accepted [ex_star ID; ex_mesh XY; ex_tree SRC] = true.
 Proof. vm_compute. reflexivity. Qed.
+
+(* Part: what the address-map model assumes about the network interface's lookup, over the text of
+   hw/floo_route_comp.sv (harness/facts_decode.py, regenerated on every run): an `addr_decode` instance looks the
+   request address up in the map it is given, over RouteCfg.NumSamRules rules, without a default index, and its result
+   is the destination identity. *)
+From FVGen Require Import DecodeFacts.
+Definition assoc_s1 (k : string) (l : list (string * string)) : option string :=
+  option_map snd (find (fun p => String.eqb (fst p) k) l).
+Theorem C01_rtl_sam_lookup :
+  rtl_sam_decode_module = "addr_decode" /\
+  assoc_s1 "addr_i" rtl_sam_decode_ports = Some "addr_i" /\
+  assoc_s1 "addr_map_i" rtl_sam_decode_ports = Some "addr_map_i" /\
+  assoc_s1 "idx_o" rtl_sam_decode_ports = Some "id_o" /\
+  assoc_s1 "NoRules" rtl_sam_decode_params = Some "RouteCfg.NumSamRules" /\
+  assoc_s1 "en_default_idx_i" rtl_sam_decode_ports = Some "1'b0".
+Proof. repeat split; reflexivity. Qed.
+Print Assumptions C01_rtl_sam_lookup.
